@@ -129,7 +129,8 @@ def make(i, base_seed, tier):
             n = xr.randint(1, 32)
             dead = {"op": "send", "bufs": [hx(common.rand_payload(xr, n))], "types": [xr.choice(["bytes", "bytearray"])],
                     "ask_no_ack": False, "list": False, "dead": True}
-            ops[k:k] = [dead, {"op": "retarget"}] if xr.random() < 0.8 else [{"op": "retarget"}]
+            # (always re-targeted afterwards: were the failed payload to come out later, it would do so on a pipe it was not sent to)
+            ops[k:k] = [dead] if xr.random() < 0.8 else [{"op": "retarget"}]
     faults = []
     if cfg["auto_ack"] and rng.random() < 0.5:
         for op in ops:
@@ -208,6 +209,18 @@ def _run(scn, cfg, w, res):
                 sim.advance(rx_mcu.poll_ns)
         rx_task = sim.spawn("rx", rx_loop, rx_mcu)
 
+    def retarget(cur):
+        n_ = cfg["aw"] if cfg.get("trunc_addr") else 5
+        if cur == cfg["pipe"]:
+            cur = cfg["alt"]["pipe"]
+            tx.open_tx_pipe(unhx(cfg["alt"]["addr"])[:n_])
+        else:
+            cur = cfg["pipe"]
+            tx.open_tx_pipe(fwd_addr)
+        sim.log("call", "T", "retarget", cur)
+        sim.count("retargeted")
+        return cur
+
     outstanding = 0
     cur_pipe = cfg["pipe"]
     stale = False
@@ -215,15 +228,7 @@ def _run(scn, cfg, w, res):
         if op["op"] == "retarget":
             if conc or not fwd or not cfg.get("alt"):
                 continue
-            n_ = cfg["aw"] if cfg.get("trunc_addr") else 5
-            if cur_pipe == cfg["pipe"]:
-                cur_pipe = cfg["alt"]["pipe"]
-                tx.open_tx_pipe(unhx(cfg["alt"]["addr"])[:n_])
-            else:
-                cur_pipe = cfg["pipe"]
-                tx.open_tx_pipe(fwd_addr)
-            sim.log("call", "T", "retarget", cur_pipe)
-            sim.count("retargeted")
+            cur_pipe = retarget(cur_pipe)
             continue
         if op["op"] == "turn":
             if conc or rev_addr is None:
@@ -323,6 +328,9 @@ def _run(scn, cfg, w, res):
             if ret:
                 res.add("result", {"kind": "success_on_dead_medium"}, "send() returned %r although every attempt was lost" % (ret,))
             sim.count("send_on_dead_medium")
+            # the transmitter turns to another pipe of the peer (part of the same step, so that a minimised scenario keeps it):
+            # were the failed payload to come out later, it would do so on a pipe it was not sent to
+            cur_pipe = retarget(cur_pipe)
             continue
         # ---- result (premise: working link)
         rets = ret if op["list"] else [ret]
